@@ -260,7 +260,14 @@ func (w *w1World) checkSettled() {
 			sub := cl.client.IsSubscribed(ch)
 			s.Probe("nontrivial:C06")
 			if sub && !present {
-				s.Violate("C06", "subscribed-not-present", "settled subscription missing from presence", "client %d holds a settled subscription to %s but is not in its presence", cl.idx, ch)
+				sig := "settled subscription missing from presence"
+				if w.unsubOverlapsSubStart(cl, ch) {
+					// presence is keyed by (channel, client id), not by subscription: the
+					// presence removal of an unsubscribe that was still in progress can hit
+					// the entry a subscribe that began meanwhile has just added
+					sig += " [an unsubscribe of the previous subscription was in progress when this subscription started]"
+				}
+				s.Violate("C06", "subscribed-not-present", sig, "client %d holds a settled subscription to %s but is not in its presence", cl.idx, ch)
 			}
 			if sub && present && (info.UserID != cl.spec.User || info.ClientID != cl.client.uid) {
 				s.Violate("C06", "presence-info-wrong", "presence info mismatch", "client %d in %s: presence has user %q client %q", cl.idx, ch, info.UserID, info.ClientID)
@@ -1155,6 +1162,67 @@ func (w *w1World) checkJoinLeave(obs *w1SimClient) {
 // overlappingSubUnsub reports whether a node-level unsubscribe call for (connection,
 // channel) overlapped in time with any subscribe of that channel on the connection
 // (node-level call, client command or the connect command of a connect-time subscription).
+// unsubOverlapsSubStart: was an unsubscribe of ch for this connection (its own command,
+// or a node-level / client-level server-side unsubscribe) in progress while a subscribe
+// of ch for this connection (command, connect-time subscription, server-side subscribe)
+// was in progress? Intervals are invocation..return of the call as the harness saw them;
+// a subscribe command with an asynchronous handler completes at an unknown later point.
+func (w *w1World) unsubOverlapsSubStart(cl *w1SimClient, ch string) bool {
+	type iv struct{ a, b int64 }
+	var subs, unsubs []iv
+	end := func(x int64) int64 {
+		if x == 0 {
+			return 1 << 62
+		}
+		return x
+	}
+	for _, op := range w.nodeOps {
+		if op.Ch != ch {
+			continue
+		}
+		mine := (strings.HasPrefix(op.Kind, "n") && op.User == cl.spec.User) || (strings.HasPrefix(op.Kind, "c") && op.C == cl.idx)
+		if !mine {
+			continue
+		}
+		switch op.Kind {
+		case "nsub", "csub":
+			subs = append(subs, iv{op.Seq, end(op.RetSeq)})
+		case "nunsub", "cunsub":
+			unsubs = append(unsubs, iv{op.Seq, end(op.RetSeq)})
+		}
+	}
+	for _, c := range cl.cmds {
+		switch {
+		case c.Kind == "subscribe" && c.Ch == ch:
+			// in progress until its reply is on the transport (asynchronous handler)
+			b := int64(1 << 62)
+			for k := range cl.frames {
+				if cl.frames[k].ReplyID == c.ID && c.ID != 0 {
+					b = cl.frames[k].Seq
+					break
+				}
+			}
+			subs = append(subs, iv{c.Seq, b})
+		case c.Kind == "unsubscribe" && c.Ch == ch:
+			unsubs = append(unsubs, iv{c.Seq, end(c.RetSeq)})
+		case c.Kind == "connect":
+			for _, cs := range cl.spec.ConnSubs {
+				if cs == ch {
+					subs = append(subs, iv{c.Seq, end(c.RetSeq)})
+				}
+			}
+		}
+	}
+	for _, u := range unsubs {
+		for _, sb := range subs {
+			if u.a < sb.b && sb.a < u.b {
+				return true
+			}
+		}
+	}
+	return false
+}
+
 func (w *w1World) overlappingSubUnsub(cl *w1SimClient, ch string) bool {
 	type iv struct{ a, b int64 }
 	var subs, unsubs []iv
